@@ -166,7 +166,8 @@ var checkC13 = def("C13/window", func(c windowCase) error {
 		stats.Case("C13/window", 0, false, "discarded-empty-window")
 		return nil
 	}
-	sctx := &search.Context{Alpha: refsearch.ToScore(a), Beta: refsearch.ToScore(bb), TT: search.NoTranspositionTable{}}
+	tt, withTable := tableFor(c.searchCase, cfg, b, g, ref)
+	sctx := &search.Context{Alpha: refsearch.ToScore(a), Beta: refsearch.ToScore(bb), TT: tt}
 	sb := b.Fork()
 	var score eval.Score
 	what := fmt.Sprintf("%s depth %d", c.Config, c.Depth)
@@ -209,11 +210,14 @@ var checkC13 = def("C13/window", func(c windowCase) error {
 	if v.Class != refsearch.Heuristic {
 		labels = append(labels, "mate-valued-v")
 	}
+	if withTable {
+		labels = append(labels, "with-fresh-table")
+	}
 	if c.Quiet {
 		labels = append(labels, "quiescence-direct")
 		// full-window facts about quiescence
 	}
-	stats.Case("C13/window", stats.FP(c.FEN, fmt.Sprint(c.Moves), c.Config, c.Param, c.Depth, c.A, c.B, c.Quiet), (mateBound && finiteMate) || tight, labels...)
+	stats.Case("C13/window", stats.FP(c.FEN, fmt.Sprint(c.Moves), c.Config, c.Param, c.Depth, c.A, c.B, c.Quiet, c.TableBytes), (mateBound && finiteMate) || tight, labels...)
 	return nil
 })
 
@@ -244,7 +248,7 @@ func genBound(t *rapid.T, label string) boundSpec {
 
 func TestC13_window(t *testing.T) {
 	runRapid(t, "C13/window", 30000, func(t *rapid.T) windowCase {
-		c := windowCase{searchCase: genSearchCase(t, searchConfigs), A: genBound(t, "a"), B: genBound(t, "b")}
+		c := windowCase{searchCase: genSearchCase(t, abConfigs), A: genBound(t, "a"), B: genBound(t, "b")}
 		if c.Depth > 4 {
 			c.Depth = 4 // smaller trees than C03: several windows per root matter more than depth
 		}
@@ -327,7 +331,7 @@ var checkC13Quiet = def("C13/quiescence", func(c searchCase) error {
 
 func TestC13_quiescence(t *testing.T) {
 	var quiet []searchConfig
-	for _, c := range searchConfigs {
+	for _, c := range abConfigs {
 		if c.Quiescence {
 			quiet = append(quiet, c)
 		}
